@@ -33,6 +33,7 @@ from calmjs.parse.handlers.core import (
     layout_handler_closebrace,
     layout_handler_semicolon,
     layout_handler_semicolon_optional,
+    layout_handler_semicolon_openbrace,
 
     layout_handler_space_imply,
     layout_handler_space_optional_pretty,
@@ -115,6 +116,11 @@ def minify(drop_semi=True):
             (EndStatement, Dedent): rule_handler_noop,
             ((OptionalSpace, EndStatement), CloseBlock):
                 layout_handler_closebrace,
+
+            # while the semicolon before a following block must stay.
+            (EndStatement, OpenBlock): layout_handler_semicolon_openbrace,
+            ((OptionalSpace, EndStatement), OpenBlock):
+                layout_handler_semicolon_openbrace,
         })
 
     def minify_rule():
